@@ -42,11 +42,32 @@ def _structural(chk):
             raise MachineryError("%d replay jobs crashed" % errors)
 
 
+def _fixed_points(chk):
+    """values of every type tag / container (the cases of spec/ISCodeGen.tla) as representation fixed points"""
+    from .. import codegen_replay as cg, pool, session_driver, tlc
+    res = tlc.run_tlc("MC_CodeGen", "CodeGen.cfg", overrides={"Mode": "emit"}, workers=8, timeout=600)
+    chk.add_tlc(res, "emit CodeGen (cases for the fixed-point clause)")
+    try:
+        cases = [c for c in cg.load_cases(res.out_dir / "cases.json", chk.seed + 5) if not c["gap"]]
+    finally:
+        tlc.cleanup(res)
+    cases = cases[: 400 if chk.quick else 3000]
+    session_driver.preload()
+    for out in pool.parallel_map(cg.run_fixed_point, [(b, chk.seed) for b in pool.chunks(cases, 10)], maxtasks=10):
+        for r in out:
+            chk.count(1, "fp|" + r["value"])
+            chk.validated(1)
+            for m in r["mism"]:
+                chk.mismatch(m["clause"], {"clause": m["clause"], "tag": r["case"]["tag"], "cont": r["case"]["cont"], "op": r["case"]["op"]},
+                             {"kind": "fixed-point", "case": r["case"], "value": r["value"], "mismatch": m}, props=m["props"])
+
+
 def run():
     chk = chain_check("C08", "chain8")
     if isinstance(chk, int):
         return chk
     _structural(chk)
+    _fixed_points(chk)
     chk.assumptions += ["deterministic tests; leaf values from the core pools (representation fixed points of richer "
                         "values are exercised by C01/C12)"]
     return chk.finish(
